@@ -217,11 +217,18 @@ static void op_schnorrsig_sign_custom(void) {
     kp_from_canon(&kp, BN(1, 96)); memset(sig, 0x55, 64); memcpy(copy, B(0), L(0));
     if (!is_none(2)) {
         memcpy(ep.magic, BN(2, 4), 4);
-        ep.noncefp = I(3) == 0 ? NULL : I(3) == 2 ? test_schnorr_nonce_data : test_schnorr_nonce_fail;
+        ep.noncefp = I(3) == 0 ? NULL : I(3) == 1 ? secp256k1_nonce_function_bip340 : I(3) == 2 ? test_schnorr_nonce_data : test_schnorr_nonce_fail;
         if (!is_none(4)) { memcpy(nd, BN(4, 32), 32); ep.ndata = nd; } else ep.ndata = NULL;
     }
     ret = secp256k1_schnorrsig_sign_custom(CTX, sig, copy, L(0), &kp, is_none(2) ? NULL : &ep);
     out_int(ret); if (!g_ill || !is_none(2)) { if (!(g_ill && !ret && sig[0] == 0x55)) out_bytes(sig, 64); } free(copy);
+}
+static void op_nonce_function_bip340(void) {
+    /* msg key32 xonly_pk32 algo|- aux32|- : the exported nonce function called directly */
+    unsigned char out[32]; int ret; unsigned char *copy = malloc(L(0) + 1); unsigned char *algo = is_none(3) ? NULL : malloc(L(3) + 1); unsigned char aux[32];
+    memcpy(copy, B(0), L(0)); if (algo) memcpy(algo, B(3), L(3)); if (!is_none(4)) memcpy(aux, BN(4, 32), 32); memset(out, 0x55, 32);
+    ret = secp256k1_nonce_function_bip340(out, copy, L(0), BN(1, 32), BN(2, 32), algo, is_none(3) ? 0 : L(3), is_none(4) ? NULL : aux);
+    out_int(ret); if (ret) out_bytes(out, 32); free(copy); free(algo);
 }
 static void op_schnorrsig_verify(void) {
     secp256k1_xonly_pubkey x; unsigned char *copy = malloc(L(1) + 1); memcpy(copy, B(1), L(1));
@@ -257,7 +264,7 @@ static const op_entry ops_core[] = {
     OP(ecdsa_signature_serialize_der), OP(ecdsa_signature_serialize_compact), OP(ecdsa_signature_normalize),
     OP(ecdsa_verify), OP(ecdsa_sign), OP(ecdsa_sign_recoverable), OP(recoverable_parse_compact),
     OP(recoverable_serialize_compact), OP(recoverable_convert), OP(ecdsa_recover),
-    OP(schnorrsig_sign32), OP(schnorrsig_sign_custom), OP(schnorrsig_verify),
+    OP(schnorrsig_sign32), OP(schnorrsig_sign_custom), OP(nonce_function_bip340), OP(schnorrsig_verify),
     OP(sha256), OP(hmac_sha256), OP(tagged_sha256), OP(rfc6979),
     {NULL, NULL}
 };
